@@ -33,4 +33,16 @@ def Acyclic (G : MG α) : Prop := ∀ v, ¬ Relation.TransGen G.DiEdge v v
 def IsTopoOrder (G : MG α) (l : List α) : Prop :=
   l.Perm G.nodes ∧ ∀ u v, G.DiEdge u v → ∃ l₁ l₂ l₃, l = l₁ ++ u :: l₂ ++ v :: l₃
 
+/-- `G.DiPath a p b`: `p = [a, …, b]` is the node sequence of a directed walk from `a` to `b`
+(`[a]` is the walk without edges from `a` to itself).  It is a *simple* path when `p.Nodup`. -/
+inductive DiPath (G : MG α) : α → List α → α → Prop
+  | single (a : α) : DiPath G a [a] a
+  | cons {a b c : α} {p : List α} : G.DiEdge a b → DiPath G b p c → DiPath G a (a :: p) c
+
+/-- the mathematical content of `get_nodes_in_directed_paths(G, S, T)`: `v` lies on a simple directed path with
+at least one edge (`2 ≤ p.length`) from a member of `S` to a member of `T`.  A member of `S ∩ T` therefore counts
+only if it lies on such a path. -/
+def OnSimpleDiPath (G : MG α) (S T : List α) (v : α) : Prop :=
+  ∃ s ∈ S, ∃ t ∈ T, ∃ p, G.DiPath s p t ∧ p.Nodup ∧ 2 ≤ p.length ∧ v ∈ p
+
 end Y0.MG
